@@ -27,6 +27,10 @@ def run(ctx):
         if i % 7 == 0 and threads <= 2:
             states = ('L' * (threads + rng.randint(0, 2))) + 'S'          # saturated pool
         when = rng.choice(['after', 'after', 'before', 'concurrent'])
+        if i % 6 == 5:
+            # fault point: accept() failing (descriptor exhaustion with a client waiting) when the signal arrives
+            states = (states if states != '-' else '') [:3] + 'E'
+            when = 'after'
         bind = rng.choice(['v4', 'v4', 'any'])
         fits = (0 if states == '-' else len(states)) <= threads
         lines.append('shutdown %d %s %s %s %d' % (threads, bind, states, when, int(fits)))
@@ -43,6 +47,21 @@ def run(ctx):
             continue
         f = dict(kv.split('=', 1) for kv in b.split(' ') if '=' in kv)
         ctx.traces += 1
+        if f.get('fault') == 'emfile':
+            # fault point: accept() was failing when the signal arrived. Judged by the event history: an accept logged after the
+            # store must break (the model refuses anything else). The wake-up connect can itself fail for lack of a
+            # descriptor, which the model does not cover (it assumes the connect reaches the listener): such runs are
+            # rescued by the harness and only counted.
+            ctx.count('fault:emfile' + (':rescued' if f.get('rescued') == '1' else ''))
+            if a.startswith('rejected'):
+                ctx.report(case, f.get('trace', '')[:400], a, cls='shutdown-trace', failing_input=True,
+                           what='accept() kept failing after the flag was stored and the loop did not leave: ' + a)
+            elif f['returned'] == 'never':
+                ctx.report(case, b[:300], 'run returns once a client connects', cls='shutdown-hang', failing_input=True,
+                           what='run did not return even after descriptors were released and a client connected')
+            else:
+                ctx.mark_nontrivial(line + f.get('trace', ''))
+            continue
         if f['returned'] == 'never' or int(f['returned']) > 2000:
             ctx.report(case, b[:300], 'run returns within 2 s of the signal', cls='shutdown-hang', failing_input=True,
                        what='run did not return promptly after the shutdown signal (returned=%s)' % f['returned'])
